@@ -242,7 +242,8 @@ Proof.
   unfold delta_sfl. intros H Hsold Hb Ha Hover.
   bind_as H as i Ei. bind_as H as m Em. bind_as H as calc Ec.
   destruct m as [r|]; [|discriminate].
-  bind_as H as c Ec'. bind_as H as txs Et. inversion H; subst info inj; clear H.
+  destruct (negb (Qcltb calc 0)); [discriminate|]. rename calc into c.
+  bind_as H as txs Et. inversion H; subst info inj; clear H.
   cbn [sf_amount sf_over] in *.
   (* the scan *)
   unfold sfl_info in Ei. cbn [a_sub exact bind] in Ei.
@@ -314,7 +315,8 @@ Proof.
   - bind_as H as u Eu. destruct (negb (Qcltb sv 0)); [discriminate|].
     bind_as H as q Eq. bind_as H as nn En. inversion H; constructor.
   - destruct m as [r|]; [|discriminate].
-    bind_as H as c Ec. bind_as H as txs Et. inversion H; subst. eapply gen_sfla_nonreg; eauto.
+    destruct (negb (Qcltb calc 0)); [discriminate|].
+    bind_as H as txs Et. inversion H; subst. eapply gen_sfla_nonreg; eauto.
 Qed.
 
 Lemma delta_for_tx_inj_nonreg A bef t aft st d inj :
